@@ -60,6 +60,10 @@ CLAIMED = {
    text="Models.tla states what 'row-wise function of named variables' means on observations (named input row -> output row): equal named content => equal output across variable orders, row orders, batch compositions and batch-axis arrangements; missing variables rejected; derived input/output spaces; Sequential = composition and Parallel = join of the observed parts. TLC model-checks closure of these laws under composition, enumerates 36 model ASTs with all variable permutations, and validates the observations recorded from real (randomly initialised) models.",
    note="Trusted: TLC; fixed point 2^-12 with tolerance 8 units. Bounded: leaves FCN/Harmonic/Polynomial/QRES/DeepRitz/Normalization with <= 3 input variables, depth <= 3, batches of <= 6 rows from a pool of 6, one or two batch axes.",
    technique="TLA+ observation laws (model-checked for closure) + exhaustive presentation enumeration by TLC + TLC trace validation", ref="5 C08"),
+ "C09": dict(
+   text="DeepONet.tla states the contraction law Out[i][j][c] = sum_k B[i][c][k] T[j][c][k] on OBSERVED branch/trunk features, functional consistency of the features across batch compositions and branch-input forms, the fix_input history, and fast == plain (outputs, first and second input derivatives, parameter gradients). Integer networks make every quantity an exact integer; TLC enumerates 48 configurations x 7 batches and decides every recorded trace.",
+   note="Trusted: TLC; integer weights -2..2 with Identity/Square activations in float64 (exact). Bounded: output dim <= 2, <= 3 neurons per component, hidden <= (3,2), 1-3 functions x 1-3 locations. The FunctionSet form of the branch input is not driven.",
+   technique="TLA+ laws on observed integer features + TLC trace validation; configurations enumerated by TLC", ref="5 C09"),
 }
 PENDING_REASON = "check not built yet in this round (design in DESIGN.md section 5); not claimed"
 
